@@ -193,7 +193,7 @@ func shapeOf(g *genLine) shape {
 
 // keepPermille: share of the enumerated scripts outside the core set that is driven (seeded choice).
 func keepPermille(env *fw.Env, src string) uint64 {
-	q := map[string]uint64{"gen:S1": 4, "gen:S2": 10, "gen:repl": 30, "gen:S2full": 10, "gen:slow": 1000}[src]
+	q := map[string]uint64{"gen:S1": 6, "gen:S2": 10, "gen:repl": 30, "gen:S2full": 10, "gen:slow": 1000}[src]
 	if q == 0 {
 		return 1000 // simulation output is driven entirely
 	}
@@ -224,6 +224,21 @@ func expand(env *fw.Env, src string, raw json.RawMessage) []json.RawMessage {
 	}
 	h := h64(env.Seed, canon)
 	s := shapeOf(&g)
+	// several small generation jobs share one TLC run (a JVM start costs seconds); sort them out again
+	switch src {
+	case "gen:S1f":
+		src = "gen:S1"
+	case "gen:paced":
+		src = map[bool]string{true: "gen:slow", false: "gen:bidi"}[g.Lim == "slow"]
+	case "gen:attach":
+		k := []string{"pkt", "xnode"}[(h>>14)%2] // a script that leaves the attach to the finishing phase
+		for _, st := range g.Steps {
+			if st.A == "attach" {
+				k = st.K
+			}
+		}
+		src = "gen:" + k
+	}
 	if s.timeout {
 		// Start's 30 s wait for the target: one script, thorough tier only
 		if env.Tier != "thorough" || len(g.Steps) != 1 || g.Lim != "none" {
@@ -239,7 +254,7 @@ func expand(env *fw.Env, src string, raw json.RawMessage) []json.RawMessage {
 		// 1 KiB/s: only the scripts this class exists for - an end goes away while a 32 KiB chunk of the
 		// other end is being paced out (30 s). A few of them in the quick tier, all in the thorough tier.
 		endsThere := len(g.Steps) > 0 && (g.Steps[len(g.Steps)-1].A == "close" || g.Steps[len(g.Steps)-1].A == "error")
-		if !s.paceClose || (env.Tier != "thorough" && !endsThere) {
+		if !s.paceClose || s.want != 1 || (env.Tier != "thorough" && !endsThere) {
 			return nil
 		}
 	} else if src == "gen:bidi" {
@@ -492,9 +507,7 @@ func main() {
 			}
 			return []fw.TLCJob{
 				mc("mc:as-found(S=2,replace,{1,32K+1},no faults)", "Bridge_mc.cfg", "2", "TRUE", "FALSE", small),
-				mc("mc:as-found(S=1)", "Bridge_mc.cfg", "1", "FALSE", "TRUE", cls),
-				mc("mc:as-needed(S=1,replace)", "Bridge_fixed.cfg", "1", "TRUE", "TRUE", small),
-				kinds(mc("mc:as-needed(S=1,attach kinds,{1,32K+1})", "Bridge_fixed.cfg", "1", "FALSE", "TRUE", small)),
+				kinds(mc("mc:as-needed(S=1,attach kinds,{32K+1})", "Bridge_fixed.cfg", "1", "FALSE", "TRUE", `{"Bp1"}`)),
 				mc("live:as-found(S=1,replace,{1,32K+1},no faults)", "Bridge_live.cfg", "1", "TRUE", "FALSE", small),
 			}
 		},
@@ -516,24 +529,35 @@ func main() {
 				j.Workers, j.Simulate, j.Depth, j.Seed = 1, fmt.Sprintf("num=%d", n), 30, env.Seed
 				return j
 			}
+			// quick: the one-write scripts without the "large" limit class (a limiter that never waits) and
+			// without third-party closes; both are in gen:S2 / sim and in the thorough tier
+			s1lims, s1ext := `{"none", "tiny", "edge"}`, "FALSE"
+			if env.Tier == "thorough" {
+				s1lims, s1ext = all, "TRUE"
+			}
 			jobs := []fw.TLCJob{
-				gen("gen:S1", "1", all, cls, "TRUE", "FALSE", "TRUE"),
 				gen("gen:S2", "2", all, `{"one", "Bp1"}`, "FALSE", "FALSE", "FALSE"),
 				gen("gen:repl", "1", `{"none", "tiny"}`, `{"one", "Bp1"}`, "FALSE", "TRUE", "FALSE"),
-				gen("gen:slow", "1", `{"slow"}`, `{"B"}`, "FALSE", "FALSE", "FALSE"),
 			}
-			pkt := gen("gen:pkt", "1", `{"none"}`, `{"one", "Bp1"}`, "FALSE", "FALSE", "FALSE")
-			pkt.Consts["AK"], pkt.Consts["HOLD"] = `{"pkt"}`, "TRUE"
-			xn := gen("gen:xnode", "2", `{"none"}`, `{"one", "Bp1"}`, "FALSE", "FALSE", "FALSE")
-			xn.Consts["AK"] = `{"xnode"}`
-			jobs = append(jobs, pkt, xn)
-			bidi := gen("gen:bidi", "2", `{"tiny"}`, `{"B", "big"}`, "FALSE", "FALSE", "FALSE")
-			bidi.Consts["MAXSLOW"] = "9" // S: 64 KiB and T: 32 KiB (or the reverse) at 16383 B/s: ~4 s of pacing
-			jobs = append(jobs, bidi)
+			if env.Tier == "thorough" {
+				jobs = append(jobs, gen("gen:S1", "1", s1lims, cls, "TRUE", "FALSE", s1ext))
+			} else {
+				// quick: the faults on two size classes only (the plain scripts keep all five)
+				jobs = append(jobs, gen("gen:S1", "1", s1lims, cls, "FALSE", "FALSE", s1ext),
+					gen("gen:S1f", "1", s1lims, `{"one", "Bp1"}`, "TRUE", "FALSE", s1ext))
+			}
+			// the target through the packet path / from another node; tunnels that outlive the heartbeat timeout
+			att := gen("gen:attach", map[bool]string{true: "2", false: "1"}[env.Tier == "thorough"], `{"none"}`, `{"one", "Bp1"}`, "FALSE", "FALSE", "FALSE")
+			att.Consts["AK"], att.Consts["HOLD"] = `{"pkt", "xnode"}`, "TRUE"
+			// 1 KiB/s: an end goes away during the pacing of a chunk; 16383 B/s: both directions pace at once
+			// (S: 64 KiB and T: 32 KiB or the reverse, ~4 s)
+			paced := gen("gen:paced", "2", `{"tiny", "slow"}`, `{"B", "big"}`, "FALSE", "FALSE", "FALSE")
+			paced.Consts["MAXSLOW"] = "9"
+			jobs = append(jobs, att, paced)
 			if env.Tier == "thorough" {
 				return append(jobs, gen("gen:S2full", "2", all, cls, "FALSE", "FALSE", "FALSE"), sim(40))
 			}
-			return append(jobs, sim(4))
+			return jobs // (random deep scripts: thorough tier)
 		},
 		Expand:      expand,
 		Drive:       drive,
